@@ -262,6 +262,7 @@ def run_query_(ctx, q, tier):
     timeout = max(q.timeout or 0, 400 if tier == 'quick' else 1800)
     if tier == 'thorough' and 'quick' not in q.tiers and THOROUGH_DEADLINE[0] is not None:
         timeout = int(max(60, min(timeout, THOROUGH_DEADLINE[0] - time.time() + 300)))
+    if os.environ.get('VP_TIMEOUT_CAP'): timeout = min(timeout, int(os.environ['VP_TIMEOUT_CAP']))     # debugging knob
     outp = os.path.join(prep['dir'], 'cbmc.json')
     r = run(cmd, timeout=timeout, mem_gb=q.mem_gb if (tier == 'quick' or 'quick' in q.tiers) else max(q.mem_gb, 12), stdout_path=outp)
     open(os.path.join(prep['dir'], 'cmd.txt'), 'w').write(' '.join(cmd) + '\n')
@@ -381,6 +382,8 @@ def do_check(pid, tier, only=None, keep=False, jobs=None, scratch=None):
     mod = load_prop(pid)
     # the thorough tier is a superset: it also runs every quick query
     queries = [q for q in mod.queries() if (tier in q.tiers or (tier == 'thorough' and 'quick' in q.tiers)) and (not only or re.search(only, q.name))]
+    if os.environ.get('VP_DEEPER_ONLY') == '1': queries = [q for q in queries if 'quick' not in q.tiers]     # debugging: smoke-test the deeper queries alone (writes partial evidence)
+    only = only or ('deeper-only' if os.environ.get('VP_DEEPER_ONLY') == '1' else None)
     if tier == 'thorough':
         THOROUGH_DEADLINE[0] = t_start + float(os.environ.get('VP_THOROUGH_BUDGET_S', '7200'))
         # quick queries first, then the deeper ones from cheap to expensive
